@@ -203,6 +203,19 @@ ArithClauses(op, A, B, cls, Rr, dv) ==
               <<"pointwise", SamplesCover(dv, ks, d) =>
                     \A u \in S : ObsVal(dv, u) = ArithValue(op, Eval(A, u), Eval(B, u))>>})
 
+(* A @ B for 2-D curves A = (A1, A2), B = (B1, B2): the inner product, a scalar curve *)
+MatmulClauses(A1, A2, B1, B2, cls, Rr, dv) ==
+  IF Limits(A1.U) # Limits(B1.U)
+  THEN Fails({<<"different_intervals_is_ValueError", cls = "ValueError">>})
+  ELSE IF cls # "ok" THEN {"operation_succeeds"}
+  ELSE IF ~ConsistentCurve(Rr) \/ Limits(Rr.U) # Limits(A1.U) THEN {"result_consistent"}
+  ELSE LET ks == SeqOfSet(KnotSet(A1.U) \cup KnotSet(B1.U) \cup KnotSet(Rr.U))
+           d  == Deg(A1.U) + Deg(B1.U) + Deg(Rr.U)
+           S  == SamplePts(ks, d) IN
+       Fails({<<"samples_cover", SamplesCover(dv, ks, d)>>,
+              <<"pointwise_inner_product", SamplesCover(dv, ks, d) =>
+                    \A u \in S : ObsVal(dv, u) = Add(Mul(Eval(A1, u), Eval(B1, u)), Mul(Eval(A2, u), Eval(B2, u)))>>})
+
 (* scalar forms: result(u) = f(A(u)) with f given by (op, s) *)
 ScalarValue(op, s, x) ==
   CASE op = "s+A" -> Add(s, x) [] op = "A+s" -> Add(x, s) [] op = "s-A" -> Sub(s, x)
